@@ -86,10 +86,56 @@ def _num(e):
     return None
 
 
-def check_curl(ctx, ck, f, rule='R-POLY.curl'):
-    """f: the (flattened) near-field function.  Returns the number of curl terms examined"""
-    stores = []     # (statement, field name, component, sign, value)
-    for s in walk_no_nested(f.node):
+def _local_funcs(node):
+    """{name: (parameter names, returned expression)} for nested single-return defs and lambdas bound to a name"""
+    out = {}
+    for x in ast.walk(node):
+        if isinstance(x, ast.FunctionDef) and x is not node:
+            body = [b for b in x.body if not (isinstance(b, ast.Expr) and isinstance(b.value, ast.Constant))]
+            if len(body) == 1 and isinstance(body[0], ast.Return) and body[0].value is not None and \
+                    not x.args.vararg and not x.args.kwarg:
+                out[x.name] = ([a.arg for a in x.args.args], body[0].value)
+        if isinstance(x, ast.Assign) and len(x.targets) == 1 and isinstance(x.targets[0], ast.Name) and \
+                isinstance(x.value, ast.Lambda):
+            out[x.targets[0].id] = ([a.arg for a in x.value.args.args], x.value.body)
+    return out
+
+
+def _expand(v, node):
+    """v with calls of local single-return functions replaced by their expression and names unpacked from an
+    array (`a0, a1 = A`) replaced by `A[0]`, `A[1]`"""
+    from ..symx import copy_replace
+    lf = _local_funcs(node)
+    alias = {}
+    for x in ast.walk(node):
+        if isinstance(x, ast.Assign) and len(x.targets) == 1 and isinstance(x.targets[0], ast.Tuple) and \
+                isinstance(x.value, ast.Name) and all(isinstance(t, ast.Name) for t in x.targets[0].elts):
+            for i, t in enumerate(x.targets[0].elts):
+                alias[t.id] = ast.Subscript(value=ast.Name(id=x.value.id, ctx=ast.Load()), slice=ast.Constant(value=i),
+                                            ctx=ast.Load())
+    stored = {t.id for x in ast.walk(node) if isinstance(x, (ast.Assign, ast.AugAssign))
+              for t0 in (x.targets if isinstance(x, ast.Assign) else [x.target])
+              for t in ([t0] if isinstance(t0, ast.Name) else []) }
+
+    def once(e, depth=0):
+        def fn(n):
+            if isinstance(n, ast.Call) and isinstance(n.func, ast.Name) and n.func.id in lf and not n.keywords \
+                    and depth < 4:
+                ps, body = lf[n.func.id]
+                if len(ps) == len(n.args):
+                    env = dict(zip(ps, [once(a, depth) for a in n.args]))
+                    return once(copy_replace(body, lambda m: env.get(m.id) if isinstance(m, ast.Name) and m.id in env else None),
+                                depth + 1)
+            if isinstance(n, ast.Name) and n.id in alias and n.id not in stored:
+                return alias[n.id]
+            return None
+        return copy_replace(e, fn)
+    return once(v)
+
+
+def _curl_stores(fnode):
+    stores = []     # (statement, field name, component, sign, value, plain)
+    for s in walk_no_nested(fnode):
         t = v = None
         sign = 1
         plain = False
@@ -100,9 +146,23 @@ def check_curl(ctx, ck, f, rule='R-POLY.curl'):
             sign = -1 if isinstance(s.op, ast.Sub) else 1
         if t is None or not (isinstance(t, ast.Subscript) and isinstance(t.value, ast.Name) and _cint(t.slice) is not None):
             continue
+        v = _expand(v, fnode)
         if not any(_atom(x) is not None for x in ast.walk(v)):
             continue
         stores.append((s, t.value.id, _cint(t.slice), sign, v, plain))
+    return stores
+
+
+def check_curl(ctx, ck, f, rule='R-POLY.curl', others=()):
+    """f: the (flattened) near-field function; others: the helpers it reaches (the curl may live in one).
+    Returns the number of curl terms examined"""
+    stores = []
+    cands = [f] + [g for g in others if g.qual != f.qual]
+    for g in cands:
+        stores = _curl_stores(g.node)
+        if stores:
+            home = g
+            break
     if not stores:
         return 0
     names = {x[1] for x in stores}
@@ -129,12 +189,15 @@ def check_curl(ctx, ck, f, rule='R-POLY.curl'):
     K = arrays.pop()
     # which side index is the positive displacement
     side_sign = None
-    for x in ast.walk(f.node):
+    for x in [y for g in cands for y in ast.walk(g.node)]:
         if isinstance(x, (ast.ListComp, ast.GeneratorExp)) and len(x.generators) == 1:
             it = x.generators[0].iter
             if isinstance(it, (ast.Tuple, ast.List)) and len(it.elts) == 2:
                 vals = [_num(e_) for e_ in it.elts]
-                if None not in vals and vals[0] == -vals[1] != 0:
+                # (the displaced points: vec + unit matrix * (j8 * step / 2))
+                unit = any(isinstance(c_, ast.Call) and (norm(c_.func).split('.')[-1] in ('identity', 'eye', 'diag'))
+                           for c_ in ast.walk(x.elt))
+                if None not in vals and vals[0] == -vals[1] != 0 and unit:
                     ss = {0: 1 if vals[0] > 0 else -1, 1: 1 if vals[1] > 0 else -1}
                     if side_sign not in (None, ss):
                         raise AnalysisError('two comprehensions over +-1 in different orders')
@@ -173,12 +236,12 @@ def check_curl(ctx, ck, f, rule='R-POLY.curl'):
                 if side_sign is not None and g != 1:
                     bad = 'component %d is %s times the curl' % (a, g)
                 total[a]['g'] = g
-        ck.ob(rule, '%s|H[%d]' % (f.qual, a), bad is None, f.loc(stores[0][0]),
+        ck.ob(rule, '%s|H[%d]' % (f.qual, a), bad is None, home.loc(stores[0][0]),
               bad or 'H[%d] = sum eps(%d,i,c) (A[+][i][c] - A[-][i][c]) over %d terms' % (a, a, len(got)))
         n += len(got)
     # the three components share their factor
     gset = {total[a].get('g') for a in range(3) if 'g' in total[a]}
     if len(gset) > 1:
-        ck.ob(rule, '%s|common-sign' % f.qual, False, f.loc(stores[0][0]),
+        ck.ob(rule, '%s|common-sign' % f.qual, False, home.loc(stores[0][0]),
               'the components carry different overall signs: %s' % sorted(map(str, gset)))
     return n
